@@ -332,6 +332,7 @@ package proto
 //@   ensures rdOK(r, err, uvlen(r.in, old(r.pos)))
 //@   ensures err == nil ==> x == uvval(r.in, old(r.pos))
 //@   ensures r.reliable && !old(r.failed) && uvok(r.in, old(r.pos)) && old(r.pos) + uvlen(r.in, old(r.pos)) <= r.end ==> err == nil {succeeds-on-well-formed}
+//@   ensures err != nil ==> err.timeoutIn == rdTmo(r.in, r.pos) [C08] {a-read-that-timed-out-is-reported-as-a-timeout}
 //@ contract (r *Reader) Int() (x, err) props(C01,C06,C07,C08,C17)
 //@   requires r != nil
 //@   modifies r.pos, r.failed
